@@ -35,7 +35,7 @@ QUICK_CANARIES = True
 CLAIM = {
     "text": "Partial: five families of necessary conditions of 'damage is never reported as 100%' are decided on every path (bookkeeping, iterator hand-over discipline, carried-buffer flush, "
             "absent-data stand-ins, digest pairing). A pass does not prove the byte arithmetic of the piece extractors right for every size; it proves that the structural ways in which "
-            "whole files or pieces escape comparison are absent. Defects G16 and G17 (repaired) were of exactly this kind. Also: the stored percentage is not rewritten afterwards and reaches the command's return value unchanged; the payload total (when it takes part in the percentage) grows for exactly the compared entries; accumulators kept on the object are reset per run; no StopIteration raised outside the iterator classes can escape from a hand-written __next__.",
+            "whole files or pieces escape comparison are absent. Defects G16 and G17 (repaired) were of exactly this kind. Also: the stored percentage is not rewritten afterwards and reaches the command's return value unchanged; the payload total (when it takes part in the percentage) grows for exactly the compared entries; accumulators kept on the object are reset per run; no StopIteration raised outside the iterator classes can escape from a hand-written __next__. The hash handed out for a v1 piece is the digest of the piece taken from the stream in the same call (a stored digest only under identity / equality with the buffer it was made from); the zero stand-in that takes over when a v2 file ends early is told what is still owed before advance() books the piece.",
     "note": "Not decided: extract / _gen_padding / advance / Padder arithmetic for all size combinations; hash equality itself. Trusted: Python iterator protocol semantics.",
     "technique": "CFG dominance and control dependence, may-raise (StopIteration) summary with a contradiction rule, must-pass-through in generator loops, linear normal forms of slice bounds",
     "design_ref": "DESIGN.md section 4, C04",
